@@ -164,10 +164,13 @@ def dists (dist : α → α → α) (g : Geom α) (pts : List (α × α)) (c : I
 def counts (dist : α → α → α) (g : Geom α) (cells : List Int) (pts : List (α × α)) : List α :=
   cells.foldl (fun ws c => incr ws (nearest (dists dist g pts c))) (pts.map fun _ => 0)
 
-/-- `c_voronoi`: `npoints < 1` is rejected; `weights[j] /= (double)ncells` -/
-def cVoronoi (dist : α → α → α) (g : Geom α) (cells : List Int) (pts : List (α × α)) : Except Err (List α) :=
+/-- `c_voronoi`: `npoints < 1` is rejected; `weights[j] /= (double)ncells`. With `ncells = 0` every weight is
+`0.0/0.0`, a NaN: `none` (the division is not totalised). -/
+def cVoronoi (dist : α → α → α) (g : Geom α) (cells : List Int) (pts : List (α × α)) :
+    Except Err (List (Option α)) :=
   if pts.length < 1 then .error .noPoints
-  else .ok ((counts dist g cells pts).map fun w => w / Trunc.ofInt (cells.length : Int))
+  else if cells.length = 0 then .ok (pts.map fun _ => none)
+  else .ok ((counts dist g cells pts).map fun w => some (w / Trunc.ofInt (cells.length : Int)))
 
 end Voronoi
 
